@@ -13,7 +13,8 @@ THEOREMS = ['MindsVerif.Props.C03.' + n for n in (
     'C03B_generic', 'C03B_canon_generic', 'C03B_sqlite', 'C03B_mysql', 'C03B_mindsdb',
     'C03B_canon_sqlite', 'C03B_canon_mysql', 'C03B_canon_mindsdb',
     'C03B_select_sqlite', 'C03B_select_mysql', 'C03B_select_mindsdb',
-    'phi3a_B_sqlite', 'phi3a_B_mysql', 'phi3a_B_mindsdb')] + [
+    'phi3a_B_sqlite', 'phi3a_B_mysql', 'phi3a_B_mindsdb',
+    'preCompat_sqlite', 'preCompat_mysql', 'preCompat_mindsdb')] + [
     'MindsVerif.Gen.ExprSim_%s.cert_ok' % d for d in ('sqlite', 'mysql', 'mindsdb')]
 ASSUME = [
     'reference grouping = the stratified SQL grammar written out in OPM.addParens (DESIGN.md §C03); validated against sqlite3 by evaluation in this run',
